@@ -872,7 +872,7 @@ class Interp:
             if "dup-index" in idx.tags:
                 self.emit(st, "scatter-dup", node, index=idx, value=v, target=ast.unparse(target.value))
             if isinstance(target.value, ast.Name) and not base.al:
-                self.emit(st, "local-store", node, name=target.value.id, value=v, index=idx)
+                self.emit(st, "local-store", node, name=target.value.id, value=v, index=idx, base=base)
             if isinstance(target.value, ast.Name) and target.value.id not in st.env and not self._in_closure(target.value.id):
                 self.emit(st, "global-write", node, name=target.value.id, rhs=v)
             # a container of an enclosing function (memo dict of a closure): remember what was stored there as well
@@ -891,8 +891,9 @@ class Interp:
                     newel = join_vals(cur.elem, v)
                     mapping = cur.mapping
                     if cur.kind == "dict" and idx.has_const() and isinstance(idx.const, str):
-                        mapping = dict(mapping or {})
-                        mapping[idx.const] = v
+                        if mapping is not None:              # (an unknown key set stays unknown)
+                            mapping = dict(mapping)
+                            mapping[idx.const] = v
                     elif cur.kind == "dict":
                         mapping = None
                     st.env[target.value.id] = cur.copy(deps=cur.deps | v.deps, pdeps=cur.pdeps | v.pdeps, elem=newel,
@@ -914,8 +915,11 @@ class Interp:
                     newel = join_vals(cur.elem, v) if cur.kind in ("list", "dict") else cur.elem
                     mapping = cur.mapping
                     if cur.kind == "dict" and idx.has_const() and isinstance(idx.const, str):
-                        mapping = dict(mapping or {})
-                        mapping[idx.const] = v
+                        if mapping is not None:
+                            mapping = dict(mapping)
+                            mapping[idx.const] = v
+                    elif cur.kind == "dict":
+                        mapping = None
                     st.env[target.value.id] = cur.copy(dim=d if cur.dim != TOP or cur.kind in ("arr",) else cur.dim,
                                                        deps=cur.deps | v.deps, pdeps=cur.pdeps | v.pdeps,
                                                        elem=newel, mapping=mapping)
@@ -1908,6 +1912,27 @@ class Interp:
         return out
 
     def e_ListComp(self, n, st):
+        # one generator without conditions over a sequence whose items are known (a literal table, a tuple of classes):
+        # evaluated item by item, so that the calls of the element expression happen once per item, in order
+        if len(n.generators) == 1 and not n.generators[0].ifs and not n.generators[0].is_async:
+            it0 = self.ev(n.generators[0].iter, st)
+            if it0.kind in ("list", "tuple") and it0.items is not None and len(it0.items) <= 16 and not it0.al \
+                    and all(i_ is not None and i_.kind in ("class", "str", "int", "float", "func") or (i_ is not None and i_.has_const()) for i_ in it0.items):
+                saved = dict(st.env)
+                outs = []
+                for i_ in it0.items:
+                    self.assign(n.generators[0].target, i_, st, n)
+                    outs.append(self.ev(n.elt, st))
+                st.env.clear()
+                st.env.update(saved)
+                el = None
+                for o_ in outs:
+                    el = join_vals(el, o_)
+                if el is None:
+                    el = Val()
+                kind = "list" if isinstance(n, ast.ListComp) else ("set" if isinstance(n, ast.SetComp) else "gen")
+                return Val(kind=kind, elem=el, items=tuple(outs) if kind == "list" else None, dim=el.dim, deps=el.deps, pdeps=el.pdeps,
+                           born=self.time, tags=el.tags)
         el = self._comp(n, st, lambda: self.ev(n.elt, st))
         # the order of the produced sequence is the order of the (single) iterable it walks
         if len(n.generators) == 1 and not n.generators[0].ifs:
